@@ -101,9 +101,13 @@ func (bo *BlockOperations) CreateProposalBlock(
 	// For simplicity, this code executes & commits txs before sending proposal,
 	// so statedb of proposal node already contains the new state and txs receipts of this proposal block.
 	//maxBytes := lastState.ConsensusParams.Block.MaxBytes
-	// Fetch a limited amount of valid evidence
-	maxNumEvidence, _ := types.MaxEvidencePerBlock(lastState.ConsensusParams.Evidence.MaxBytes)
-	evidence, _ := bo.evPool.PendingEvidence(maxNumEvidence)
+	// Fetch a limited amount of valid evidence: the pool takes a byte budget, validators
+	// (validateBlock) bound the number of items.
+	_, maxEvidenceBytes := types.MaxEvidencePerBlock(lastState.ConsensusParams.Evidence.MaxBytes)
+	evidence, _ := bo.evPool.PendingEvidence(maxEvidenceBytes)
+	if maxNumEvidence, _ := types.MaxEvidencePerBlock(lastState.ConsensusParams.Block.MaxBytes); int64(len(evidence)) > maxNumEvidence {
+		evidence = evidence[:maxNumEvidence]
+	}
 
 	// Set time.
 	var timestamp time.Time
